@@ -145,12 +145,24 @@ func cmdCheck(args []string) int {
 		defer pprof.StopCPUProfile()
 	}
 
+	var sc *scratchCtx
+	if progs := hgen.ScratchPrograms(id, *tier, seed); len(progs) > 0 {
+		var code int
+		sc, code = prepareScratch(id, *tier, progs)
+		if sc == nil {
+			return code
+		}
+		defer os.RemoveAll(sc.dir)
+	}
 	srcs, err := collect(id, *tier)
+	if sc != nil {
+		srcs, err = nil, nil
+	}
 	if err != nil {
 		fmt.Println("INCONCLUSIVE: cannot collect harnesses:", err)
 		return 2
 	}
-	if len(srcs) == 0 {
+	if len(srcs) == 0 && sc == nil {
 		fmt.Println("INCONCLUSIVE: no harnesses for", id)
 		return 2
 	}
@@ -183,7 +195,11 @@ func cmdCheck(args []string) int {
 		patterns = append(patterns, d)
 	}
 	sort.Strings(patterns)
-	eng, err := gosym.Load(repoDir, overlay, patterns)
+	loadDir := repoDir
+	if sc != nil {
+		loadDir, overlay, patterns = sc.dir, nil, sc.patterns
+	}
+	eng, err := gosym.Load(loadDir, overlay, patterns)
 	if err != nil {
 		fmt.Println("INCONCLUSIVE: load/type-check failed (harness does not fit the current tree?):")
 		fmt.Println(err)
@@ -309,7 +325,13 @@ func cmdCheck(args []string) int {
 			defer wg.Done()
 			sem <- struct{}{}
 			defer func() { <-sem }()
-			dir, rep, det := replayCex(id, *tier, o.c, cexH[o.c], srcs)
+			var dir, det string
+			var rep bool
+			if sc != nil {
+				dir, rep, det = sc.replay(id, *tier, o.c, cexH[o.c])
+			} else {
+				dir, rep, det = replayCex(id, *tier, o.c, cexH[o.c], srcs)
+			}
 			mu.Lock()
 			o.dir, o.repro, o.detail = dir, rep, det
 			mu.Unlock()
@@ -319,6 +341,12 @@ func cmdCheck(args []string) int {
 
 	violations := 0
 	knownHits := 0
+	if sc != nil {
+		for _, v := range sc.violations {
+			violations++
+			fmt.Printf("VIOLATION property=%s replay=%s\n  %s\n", id, v.dir, v.msg)
+		}
+	}
 	for _, o := range outs {
 		sig := o.c.Harness + " " + o.c.Kind + ":" + o.c.Label
 		if !o.repro {
@@ -358,6 +386,9 @@ func cmdCheck(args []string) int {
 		}
 	}
 	ev := evidence{PropertyID: id, Tier: *tier, Seed: seed, Level: "model_checking", WallS: time.Since(t0).Seconds(), Violations: violations}
+	if sc != nil {
+		ev.Level = "translation_validation"
+	}
 	ev.Coverage = map[string]interface{}{
 		"states":                        paths,
 		"transitions":                   steps,
@@ -377,6 +408,12 @@ func cmdCheck(args []string) int {
 		"task_switches":                 switches,
 		"exhaustive":                    len(inconclusive) == 0,
 		"explanation":                   "every feasible path of every harness within the stated bounds was executed symbolically over the SSA of the current /repo tree; each assertion was decided by z3 (unsat of path-condition ∧ ¬assertion)",
+	}
+	if sc != nil {
+		ev.Coverage["programs"] = len(sc.progs)
+		ev.Coverage["disagreements_checked"] = asserts
+		ev.Coverage["generator"] = "cmd/gombok built from the current /repo tree and run on each scratch package; its output is type-checked, built and then executed symbolically with a harness generated from the same struct specification"
+		ev.Coverage["program_samples"] = sc.samples
 	}
 	ev.Assumptions = append([]string{"go/ssa (x/tools v0.29.0) lowering and the executor's instruction semantics", "z3 4.8.12 verdicts", "sequential consistency; scheduling points only at sync/atomic, mutex, channel and spawn operations (sound for data-race-free code)"}, keys(notes)...)
 	ev.Assumptions = append(ev.Assumptions, hgen.Assumptions(id)...)
@@ -537,6 +574,9 @@ func replayCex(id, tier string, c *gosym.Cex, h *gosym.Harness, srcs []srcFile) 
 }
 
 func runReplay(dir string) (bool, string) {
+	if _, err := os.Stat(filepath.Join(dir, "scratch.json")); err == nil {
+		return runScratchReplay(dir)
+	}
 	var vf vectorFile
 	b, err := os.ReadFile(filepath.Join(dir, "vector.json"))
 	if err != nil {
